@@ -3,6 +3,7 @@
 // (documented failure protocol: non-zero code / nullptr / empty result). Everything is 2-D in the default space.
 // Random procedures receive an explicit seed argument (documented); nothing here sets a global option.
 #pragma once
+#include "Basic/MathFunc.hpp"
 #include "common/vh.hpp"
 #include "common/c10_util.hpp"
 #include "common/c10_world.hpp"
@@ -358,6 +359,20 @@ inline std::string callDbFillRandom(Rng& q)
   UDb a(Db::createFillRandom(q.irange(5, 20), 2, q.irange(1, 2), 0, 0, 0., 0., VectorDouble(), VectorDouble(), VectorDouble(), libSeed(q)));
   return digOf([&](Dig& g) { digDb(g, a.get()); });
 }
+inline std::string callMvn(Rng& q)
+{
+  // quadrivariate Gaussian probability of a box (quasi Monte-Carlo integration inside mvndst, which is documented to work from
+  // a seed of its own and to give the user's seed back): the value cannot depend on what was drawn before
+  double rho = q.uni(0.2, 0.8);
+  double correl[16], lower[4], upper[4];
+  for (int i = 0; i < 4; i++)
+    for (int j = 0; j < 4; j++) correl[i * 4 + j] = i == j ? 1. : rho;
+  for (int i = 0; i < 4; i++) { lower[i] = q.uni(-2., -0.2); upper[i] = q.uni(0.3, 2.5); }
+  double error = 0, value = 0;
+  int inform = 0;
+  mvndst4(lower, upper, correl, 8000, 1e-6, 0., &error, &value, &inform);
+  return digOf([&](Dig& g) { g.d(value); g.d(error); g.i(inform); });
+}
 inline std::string callPolygon(Rng& q)
 {
   DbSpec ds = dataSpec(q, 1);
@@ -587,6 +602,7 @@ inline const std::vector<Call>& catalogue()
     {"grid-conversions", callGridConv, false, false},
     {"nf-roundtrip", callNFRoundTrip, false, false, "variogram-computation"},
     {"law", callLaw, true, false},
+    {"mvn-probability", callMvn, false, false},
     {"neigh-select", callNeighSelect, false, false},
     // failing calls
     {"FAIL:kriging-nvar-mismatch", failKrigingNvarMismatch, false, true},
